@@ -154,8 +154,8 @@ def vgrid(kind, z0, ztop, n, zm=None):
         return np.linspace(z0, ztop, n + 1)
     if kind == "geometric":
         return z0 * (ztop / z0) ** (np.arange(n + 1) / n)
-    if kind == "expmap":  # the repository's mapping, h = ztop
-        h = ztop
+    if kind in ("expmap", "expmap_weak"):  # the repository's mapping, h = ztop; "weak": h = 2000 ztop (successive layers differ by ~1e-6)
+        h = ztop if kind == "expmap" else 2000.0 * ztop
         zeta = np.linspace(0.0, 1.0, n + 1)
         a, b = math.exp(-z0 / h), math.exp(-ztop / h)
         return -h * np.log(a - zeta * (a - b))
